@@ -14,6 +14,14 @@ from ..rulelib import Ctx, nodes_calling, reaching_defs, short
 PARSERS = ('parse_openmetrics', 'parse_carbon')
 
 
+def _tags_var(m):
+  """name of the dict that becomes the series' tags: second argument of the returned cls(metric, <tags>)"""
+  for r in walk_no_nested(m.node, include_self=False):
+    if isinstance(r, ast.Return) and isinstance(r.value, ast.Call) and len(r.value.args) >= 2 and isinstance(r.value.args[1], ast.Name):
+      return r.value.args[1].id
+  return 'tags'
+
+
 def run(check):
   cx = Ctx(check)
   repo = check.repo
@@ -88,14 +96,15 @@ def run(check):
       continue
     check.analysed(m)
     g = cx.cfg(m)
+    tv = _tags_var(m)
     tag_stores = [n for n in g.nodes if n.kind == 'stmt' and isinstance(n.ast, ast.Assign) and any(
-      isinstance(t, ast.Subscript) and dotted(t.value) == 'tags' and not (isinstance(t.slice, ast.Constant) and t.slice.value == 'name')
+      isinstance(t, ast.Subscript) and dotted(t.value) == tv and not (isinstance(t.slice, ast.Constant) and t.slice.value == 'name')
       for t in n.ast.targets)]
     name_stores = [n for n in g.nodes if n.kind == 'stmt' and isinstance(n.ast, ast.Assign) and any(
-      isinstance(t, ast.Subscript) and dotted(t.value) == 'tags' and isinstance(t.slice, ast.Constant) and t.slice.value == 'name'
+      isinstance(t, ast.Subscript) and dotted(t.value) == tv and isinstance(t.slice, ast.Constant) and t.slice.value == 'name'
       for t in n.ast.targets)]
     init_with_name = [n for n in g.nodes if n.kind == 'stmt' and isinstance(n.ast, ast.Assign) and any(
-      isinstance(t, ast.Name) and t.id == 'tags' for t in n.ast.targets) and isinstance(n.ast.value, ast.Dict) and any(
+      isinstance(t, ast.Name) and t.id == tv for t in n.ast.targets) and isinstance(n.ast.value, ast.Dict) and any(
       isinstance(k, ast.Constant) and k.value == 'name' for k in n.ast.value.keys)]
     if not tag_stores:
       r_o.cannot_decide('%s: no `tags[tag] = value` store recognised' % pn)
@@ -134,8 +143,9 @@ def run(check):
       continue
     g = cx.cfg(m)
     vals = set(nodes_calling(g, lambda c: isinstance(c.func, ast.Attribute) and c.func.attr == 'validateTagAndValue'))
+    tv = _tags_var(m)
     tag_stores = [n for n in g.nodes if n.kind == 'stmt' and isinstance(n.ast, ast.Assign) and any(
-      isinstance(t, ast.Subscript) and dotted(t.value) == 'tags' and not (isinstance(t.slice, ast.Constant) and t.slice.value == 'name')
+      isinstance(t, ast.Subscript) and dotted(t.value) == tv and not (isinstance(t.slice, ast.Constant) and t.slice.value == 'name')
       for t in n.ast.targets)]
     for tsn in tag_stores:
       loops = [n for n in g.nodes if n.kind == 'loop' and n.owner is not None and tsn in g.in_loop_nodes(n.owner)]
